@@ -42,3 +42,24 @@ M("c05-clamp-removed", "C05", "distance_to_edge: projection clamp to segment rem
   "    line_projections = torch.clamp(line_projections, min=0, max=1)", "    line_projections = torch.clamp(line_projections, min=0)")
 M("c05-dp-filter-all", "C05", "PartAffinityFieldsGenerator: any(dim=1) -> all(dim=1)", EM,
   "            in_img = in_img.all(dim=-1).any(dim=1)", "            in_img = in_img.all(dim=-1).all(dim=1)")
+
+PF = "sleap_nn/inference/peak_finding.py"
+M("c06-ge", "C06", "local peaks: > -> >= against dilated map", PF, "(cms > max_img) & (cms > threshold)", "(cms >= max_img) & (cms > threshold)")
+M("c06-4nbr", "C06", "local peaks: 4-neighbourhood", PF, "[[1, 1, 1], [1, 0, 1], [1, 1, 1]]", "[[0, 1, 0], [1, 0, 1], [0, 1, 0]]")
+M("c06-centre", "C06", "local peaks: kernel centre not zeroed", PF, "[[1, 1, 1], [1, 0, 1], [1, 1, 1]]", "[[1, 1, 1], [1, 1, 1], [1, 1, 1]]")
+M("c06-crop-index", "C06", "find_local_peaks crop index sample+channel", PF, "box_sample_inds = (peak_sample_inds * channels) + peak_channel_inds", "box_sample_inds = peak_sample_inds + peak_channel_inds")
+M("c06-crop-index2", "C06", "find_local_peaks crop index channel*samples+sample", PF, "box_sample_inds = (peak_sample_inds * channels) + peak_channel_inds", "box_sample_inds = (peak_channel_inds * samples) + peak_sample_inds")
+M("c06-xy-swap", "C06", "local peaks (x,y) swapped", PF, "peak_points = peak_subs[:, [2, 1]].to(torch.float32)", "peak_points = peak_subs[:, [1, 2]].to(torch.float32)")
+M("c06-thr-dropped", "C06", "threshold test >= instead of >", PF, "(cms > max_img) & (cms > threshold)", "(cms > max_img) & (cms >= threshold)")
+M("c06-offset-sign", "C06", "offsets subtracted", PF, "    refined_peaks = rough_peaks + offsets\n", "    refined_peaks = rough_peaks + offsets.flip(0)\n")
+M("c07-tie-regression", "C07", "revert of the tied-maxima fix (x,y from separate reductions)", PF,
+  "    max_indices_y = torch.div(max_indices, width, rounding_mode=\"floor\")\n",
+  "    max_indices_y = torch.max(torch.max(cms, dim=3)[0], dim=2)[1]\n    max_indices_x = torch.max(torch.max(cms, dim=2)[0], dim=2)[1]\n")
+M("c07-thr-le", "C07", "threshold compare <=", PF, "below_threshold_mask = max_values < threshold", "below_threshold_mask = max_values <= threshold")
+M("c07-value-not-zeroed", "C07", "value not zeroed below threshold", PF, "    max_values[below_threshold_mask] = float(0)\n", "")
+M("c07-offsets-all", "C07", "offsets added to first peaks instead of valid_idx", PF, "    refined_peaks[valid_idx] += offsets\n", "    refined_peaks[: len(valid_idx)] += offsets\n")
+M("c07-gv-centre", "C07", "gv centring uses crop_size/2", PF,
+  "        gv = torch.arange(crop_size, dtype=torch.float32) - ((crop_size - 1) / 2)\n        dx_hat, dy_hat = integral_regression(cm_crops, xv=gv, yv=gv)\n        offsets = torch.cat([dx_hat, dy_hat], dim=1)\n\n    # Apply offsets.\n    refined_peaks = rough_peaks.clone()",
+  "        gv = torch.arange(crop_size, dtype=torch.float32) - (crop_size // 2 - 0.25)\n        dx_hat, dy_hat = integral_regression(cm_crops, xv=gv, yv=gv)\n        offsets = torch.cat([dx_hat, dy_hat], dim=1)\n\n    # Apply offsets.\n    refined_peaks = rough_peaks.clone()")
+M("c07-xy-swap", "C07", "global peaks: x,y stacked in the wrong order", PF, "torch.stack([max_indices_x, max_indices_y], dim=-1)", "torch.stack([max_indices_y, max_indices_x], dim=-1)")
+M("c07-valid-idx-crop", "C07", "crops taken from peak order instead of valid_idx maps", PF, "    cm_crops = crop_bboxes(cms, bboxes, valid_idx)\n", "    cm_crops = crop_bboxes(cms, bboxes, torch.arange(len(valid_idx)))\n")
